@@ -188,7 +188,8 @@ def _valid_inputs(case):
     if case["kind"] == "float":
         a = arr(case["x"])
         idt = case.get("int_data")
-        if idt and all(v is None or float(v) == int(v) for v in case["x"]):
+        lim = 2 ** 31 if idt and idt.startswith("int32") else 2 ** 53
+        if idt and all(v is None or (v == v and abs(v) < lim and float(v) == int(v)) for v in case["x"]):
             if all(v is not None for v in case["x"]):
                 a = np.array([int(v) for v in case["x"]], dtype=idt.split("+")[0])
             elif case.get("mask_carrier", "none") == "none":
